@@ -1,7 +1,7 @@
 (* C05 — Listed order, once per traversal; once per inner() call below a wrapper. *)
 From Coq Require Import List Arith Bool.
 Import ListNotations.
-From NJ Require Import Base Registry Classify Select Reorder Machine Spec Bind Refine Chain SpecLemmas PreserveProofs.
+From NJ Require Import Base Registry Classify Select Reorder Machine Spec Bind Refine Chain SpecLemmas PreserveProofs WfProofs EndToEnd.
 
 (* In the reference semantics, with every provider logging its id and wrapper p calling inner()
    ncalls p times: the log is the list order, each provider once per traversal, everything below a
@@ -63,3 +63,49 @@ Theorem C05_final_list_is_listed_order : forall c pl f0,
   map p_s (pl_funcs pl) = map p_s f0.
 Proof. exact plan_keeps_assembled_order. Qed.
 Print Assumptions C05_final_list_is_listed_order.
+
+(* End to end, with nothing validated on the case: for every case without Reorder annotations and
+   init function, if the chain binds then - every provider logging its id, wrapper p calling inner()
+   [ncalls p] times - a session of k invocations logs, per invocation, the invoke function, then (in
+   the first invocation only) the included static injectors in working-list order, then the
+   included per-invocation providers in working-list order, everything below a wrapper once per
+   inner() call.  Only included providers appear; the working list is the assembled list
+   (C05_final_list_is_listed_order). *)
+Theorem C05_log_of_every_plain_chain : forall (c : bcase) (pl : plan) (b : bound),
+  plain_case c = true -> bc_init c = None -> bind_chain c = Ok (pl, b) ->
+  exists sp, splan_of (bc_te c) pl = Some sp /\
+    forall (ncalls : nat -> nat) (k : nat) (w0 : list nat),
+      ss_w (list nat) (fst (run_session (list nat) o_fn (o_wrap ncalls) b (mkSess (list nat) w0 (bd_base0 b) false true) (repeat DoInvoke k)))
+      = w0 ++ session_log ncalls sp true k.
+Proof. exact plain_chain_log. Qed.
+Print Assumptions C05_log_of_every_plain_chain.
+
+(* the providers of the reference plan are the included ones, by group, in working-list order *)
+Theorem C05_plan_holds_the_included_providers : forall te pl sp,
+  splan_of te pl = Some sp -> pl_slots pl = allocate_slots (pl_funcs pl) (pl_invokeIndex pl) ->
+  let inc g := map p_pid (filter (fun p => p_include p && g p) (pl_funcs pl)) in
+  map r_pid (sp_static sp) = inc (fun p => group_eqb (p_group p) GStatic || group_eqb (p_group p) GLiteral) /\
+  map r_pid (sp_run sp) = inc (fun p => group_eqb (p_group p) GRun) ++ inc (fun p => group_eqb (p_group p) GFinal).
+Proof. exact splan_pids. Qed.
+Print Assumptions C05_plan_holds_the_included_providers.
+
+(* non-vacuity: Cacheable static injector 1, wrapper 4 calling inner() twice, injectors 2 and 3 (the
+   final function); two invocations.  The static injector runs once, the wrapper once per
+   invocation, everything below it twice per invocation. *)
+Definition ex5_ty (c : nat) : tyinfo := mkTy c false 1 0 true true false [] 0.
+Definition ex5_te : tyenv := mkTyenv [ex5_ty 10; ex5_ty 11; ex5_ty 12] 1 2 3 4 5.
+Definition ex5_pd (pid : nat) (s : shape) (cacheable : bool) : pdesc :=
+  mkPdesc pid 0 0 0 0 s false false cacheable false false false false false false false false false 0 [] None None [] 0 [2] false.
+Definition ex5_case : bcase :=
+  mkCase ex5_te [ex5_pd 1 (ShFn [] [10]) true; ex5_pd 4 (ShWrap [] [] [12] [12]) false;
+                 ex5_pd 2 (ShFn [10] [11]) false; ex5_pd 3 (ShFn [11] [12]) false]
+         (ex5_pd 92 (ShFnPtr [] [12]) false) None [true; true].
+Example C05_log_nonvacuous :
+  plain_case ex5_case = true /\ bc_init ex5_case = None /\
+  exists pl b sp, bind_chain ex5_case = Ok (pl, b) /\ splan_of ex5_te pl = Some sp /\
+    session_log (fun _ => 2) sp true 2 = [92; 1; 4; 2; 3; 2; 3; 92; 4; 2; 3; 2; 3].
+Proof.
+  split; [reflexivity|]. split; [reflexivity|]. eexists. eexists. eexists.
+  split; [vm_compute; reflexivity|]. split; [vm_compute; reflexivity|]. vm_compute. reflexivity.
+Qed.
+Print Assumptions C05_log_nonvacuous.
